@@ -39,6 +39,8 @@ theorem relEq_iff (a b : K) :
     · simp [h2]
     · simp [h1, h2, this]
 
+theorem fieldNum_sqrt (x : K) : @Num.sqrt K (fieldNum K sq) x = sq x := rfl
+
 /-! ## Segment -/
 
 /-- **membership**: the projection is a point `a + t (b - a)`, `t ∈ [0,1]` of the segment. -/
@@ -142,5 +144,606 @@ theorem seg3_inside_iff_close (s : Segment3 K) (p : V3 K) :
     split_ifs <;> rfl
   rw [hin]
   simp only [V3.relEq, Bool.and_eq_true, relEq_iff, and_assoc]
+
+/-! ## Ball (model = corrected behaviour at the centre, see fixes/C05-ball-center-nan.diff) -/
+
+/-- **inside flag**: `is_inside ⇔ |p|² ≤ r²`, for both `solid` flags and also at the centre. -/
+theorem ball3_inside_iff (s : Ball K) (p : V3 K) (solid : Bool) :
+    letI := fieldNum K sq
+    (s.project3 p solid).inside = true ↔ s.Mem3 p := by
+  letI := fieldNum K sq
+  simp only [Ball.project3, Ball.Mem3]
+  split_ifs <;> simp_all
+
+/-- `contains_local_point ⇔ Mem` -/
+theorem ball3_contains_iff (s : Ball K) (p : V3 K) :
+    letI := fieldNum K sq
+    s.contains3 p = true ↔ s.Mem3 p := by
+  simp [Ball.contains3, Ball.Mem3]
+
+/-- key computation: off the `solid ∧ inside` branch the projection is on the sphere and `|p - proj|² = (|p| - r)²`. -/
+private theorem ball3_core (hs : LawfulSqrt sq) (s : Ball K) (p : V3 K) (solid : Bool) :
+    letI := fieldNum K sq
+    (solid = false ∨ ¬ s.Mem3 p) →
+      (s.project3 p solid).pt.normSq = s.r * s.r ∧
+      dsq3 p (s.project3 p solid).pt = (sq p.normSq - s.r) * (sq p.normSq - s.r) := by
+  letI := fieldNum K sq
+  intro h
+  have hnn : 0 ≤ p.normSq := by
+    simp only [V3.normSq, V3.dot]; nlinarith [mul_self_nonneg p.x, mul_self_nonneg p.y, mul_self_nonneg p.z]
+  have hd2 := hs.sq_mul _ hnn
+  have hd0 := hs.nonneg _ hnn
+  simp only [Ball.project3, Ball.Mem3] at *
+  split_ifs with c1 c2
+  · simp at c1; rcases h with h | h
+    · simp [h] at c1
+    · exact absurd c1.1 h
+  · simp only [neq, Bool.and_eq_true, decide_eq_true_eq] at c2
+    have hz : p.normSq = 0 := le_antisymm c2.1 c2.2
+    have hd : sq p.normSq = 0 := by
+      have : sq p.normSq * sq p.normSq = 0 := by rw [hd2, hz]
+      exact mul_self_eq_zero.mp this
+    simp only [V3.normSq, V3.dot] at hz
+    obtain ⟨hx, hy, hz'⟩ := sumsq3_eq_zero (le_of_eq hz)
+    refine ⟨by simp [V3.normSq, V3.dot], ?_⟩
+    rw [hd]; simp only [dsq3, hx, hy, hz']; ring
+  · have hne : p.normSq ≠ 0 := by
+      intro h0; apply c2; simp [neq, h0]
+    have hdne : sq p.normSq ≠ 0 := by
+      intro h0; rw [h0] at hd2; exact hne (by linarith)
+    have hk := div_mul_cancel₀ s.r hdne
+    generalize s.r / sq p.normSq = k at hk
+    generalize sq p.normSq = d at *
+    simp only [V3.normSq, V3.dot, V3.smul, dsq3] at *
+    refine ⟨?_, ?_⟩
+    · linear_combination (k * k) * (-hd2) + (k * d + s.r) * hk
+    · linear_combination ((1 - k) * (1 - k)) * (-hd2) - (2 * d - k * d - s.r) * hk
+
+/-- **boundary**: when `solid = false` or the point is outside, the projection lies on the sphere `|x|² = r²`. -/
+theorem ball3_project_on_sphere (hs : LawfulSqrt sq) (s : Ball K) (p : V3 K) (solid : Bool) :
+    letI := fieldNum K sq
+    (solid = false ∨ ¬ s.Mem3 p) → (s.project3 p solid).pt.normSq = s.r * s.r :=
+  fun h => (ball3_core sq hs s p solid h).1
+
+/-- **membership**: the projection is a point of the ball. -/
+theorem ball3_project_mem (hs : LawfulSqrt sq) (s : Ball K) (p : V3 K) (solid : Bool) :
+    letI := fieldNum K sq
+    s.Mem3 (s.project3 p solid).pt := by
+  letI := fieldNum K sq
+  by_cases h : solid = false ∨ ¬ s.Mem3 p
+  · exact le_of_eq (ball3_project_on_sphere sq hs s p solid h)
+  · push Not at h
+    have h1 : solid = true := by simpa using h.1
+    have h2 := h.2
+    simp only [Ball.project3, Ball.Mem3] at *
+    simp [h1, h2]
+
+/-- **optimality w.r.t. the sphere** (both flags, inside or outside): no point of the sphere is closer than the projection. -/
+theorem ball3_project_optimal_boundary (hs : LawfulSqrt sq) (s : Ball K) (p q : V3 K) (solid : Bool) :
+    letI := fieldNum K sq
+    0 ≤ s.r → q.normSq = s.r * s.r → dsq3 p (s.project3 p solid).pt ≤ dsq3 p q := by
+  letI := fieldNum K sq
+  intro hr hq
+  by_cases h : solid = false ∨ ¬ s.Mem3 p
+  · rw [(ball3_core sq hs s p solid h).2]
+    have hnn : 0 ≤ p.normSq := by
+      simp only [V3.normSq, V3.dot]; nlinarith [mul_self_nonneg p.x, mul_self_nonneg p.y, mul_self_nonneg p.z]
+    have hd2 := hs.sq_mul _ hnn
+    have hd0 := hs.nonneg _ hnn
+    have hdot := dot_le3 p.x p.y p.z q.x q.y q.z (sq p.normSq) s.r (by simpa [V3.normSq, V3.dot] using le_of_eq hd2.symm)
+      (by simpa [V3.normSq, V3.dot] using le_of_eq hq) hd0 hr
+    generalize sq p.normSq = d at *
+    simp only [V3.normSq, V3.dot, dsq3] at *
+    nlinarith
+  · push Not at h
+    have h1 : solid = true := by simpa using h.1
+    have h2 := h.2
+    have : (@Ball.project3 K (fieldNum K sq) s p solid).pt = p := by
+      simp only [Ball.project3, Ball.Mem3] at *
+      simp [h1, h2]
+    rw [this]
+    simp only [dsq3]
+    nlinarith [mul_self_nonneg (p.x - q.x), mul_self_nonneg (p.y - q.y), mul_self_nonneg (p.z - q.z)]
+
+/-- **optimality w.r.t. the solid ball**: for `solid = true`, or for an outside point, no point of the ball is closer. -/
+theorem ball3_project_optimal (hs : LawfulSqrt sq) (s : Ball K) (p q : V3 K) (solid : Bool) :
+    letI := fieldNum K sq
+    0 ≤ s.r → s.Mem3 q → (solid = true ∨ ¬ s.Mem3 p) → dsq3 p (s.project3 p solid).pt ≤ dsq3 p q := by
+  letI := fieldNum K sq
+  intro hr hq hc
+  by_cases h2 : s.Mem3 p
+  · have h1 : solid = true := by rcases hc with h | h; exact h; exact absurd h2 h
+    have : (@Ball.project3 K (fieldNum K sq) s p solid).pt = p := by
+      simp only [Ball.project3, Ball.Mem3] at *
+      simp [h1, h2]
+    rw [this]
+    simp only [dsq3]
+    nlinarith [mul_self_nonneg (p.x - q.x), mul_self_nonneg (p.y - q.y), mul_self_nonneg (p.z - q.z)]
+  · rw [(ball3_core sq hs s p solid (Or.inr h2)).2]
+    have hnn : 0 ≤ p.normSq := by
+      simp only [V3.normSq, V3.dot]; nlinarith [mul_self_nonneg p.x, mul_self_nonneg p.y, mul_self_nonneg p.z]
+    have hd2 := hs.sq_mul _ hnn
+    have hd0 := hs.nonneg _ hnn
+    have hdot := dot_le3 p.x p.y p.z q.x q.y q.z (sq p.normSq) s.r (by simpa [V3.normSq, V3.dot] using le_of_eq hd2.symm)
+      (by simpa [Ball.Mem3, V3.normSq, V3.dot] using hq) hd0 hr
+    have hrd : s.r ≤ sq p.normSq := by
+      apply le_of_mul_self_le hd0
+      rw [hd2]; simp only [Ball.Mem3] at h2; exact le_of_lt (not_le.mp h2)
+    have hqn : 0 ≤ q.normSq := by
+      simp only [V3.normSq, V3.dot]; nlinarith [mul_self_nonneg q.x, mul_self_nonneg q.y, mul_self_nonneg q.z]
+    have he2 := hs.sq_mul _ hqn
+    have he0 := hs.nonneg _ hqn
+    have her : sq q.normSq ≤ s.r := by
+      apply le_of_mul_self_le hr
+      rw [he2]; exact hq
+    have hdot' := dot_le3 p.x p.y p.z q.x q.y q.z (sq p.normSq) (sq q.normSq)
+      (by simpa [V3.normSq, V3.dot] using le_of_eq hd2.symm) (by simpa [V3.normSq, V3.dot] using le_of_eq he2.symm) hd0 he0
+    generalize sq p.normSq = d at *
+    generalize sq q.normSq = e at *
+    simp only [Ball.Mem3, V3.normSq, V3.dot, dsq3] at *
+    nlinarith [mul_nonneg (sub_nonneg.2 her) (by linarith : 0 ≤ 2 * d - e - s.r)]
+
+example : (⟨2⟩ : Ball ℚ).Mem3 ⟨1, 1, 1⟩ ∧ ¬ (⟨2⟩ : Ball ℚ).Mem3 ⟨2, 1, 0⟩ := by
+  simp only [Ball.Mem3, V3.normSq, V3.dot]; norm_num
+
+/-- **distance**: `distance_to_local_point` has the magnitude `|p - proj|` and is negative exactly for interior
+points with `solid = false`; it is `0` for inside points when `solid = true`. -/
+theorem ball3_distance_spec (hs : LawfulSqrt sq) (s : Ball K) (p : V3 K) (solid : Bool) :
+    letI := fieldNum K sq
+    0 ≤ s.r →
+      s.distance3 p solid * s.distance3 p solid = dsq3 p (s.project3 p solid).pt ∧
+      (s.distance3 p solid < 0 ↔ (solid = false ∧ p.normSq < s.r * s.r)) := by
+  letI := fieldNum K sq
+  intro hr
+  have hnn : 0 ≤ p.normSq := by
+    simp only [V3.normSq, V3.dot]; nlinarith [mul_self_nonneg p.x, mul_self_nonneg p.y, mul_self_nonneg p.z]
+  have hd2 := hs.sq_mul _ hnn
+  have hd0 := hs.nonneg _ hnn
+  have hlt : sq p.normSq - s.r < 0 ↔ p.normSq < s.r * s.r := by
+    constructor
+    · intro h; rw [← hd2]; nlinarith
+    · intro h; rw [← hd2] at h; by_contra hc; push Not at hc; nlinarith
+  by_cases h : solid = false ∨ ¬ s.Mem3 p
+  · have e := (ball3_core sq hs s p solid h).2
+    rw [e]
+    simp only [Ball.distance3, V3.norm, fieldNum_sqrt]
+    rcases h with h | h
+    · subst h; simpa using hlt
+    · have h3 : ¬ (sq p.normSq - s.r < 0) := by
+        rw [hlt]; simp only [Ball.Mem3] at h; push Not at h ⊢; exact h.le
+      have h4 : ¬ (p.normSq < s.r * s.r) := by rwa [← hlt]
+      simp [h3, h4]
+  · push Not at h
+    have h1 : solid = true := by simpa using h.1
+    have h2 := h.2
+    have hp : (@Ball.project3 K (fieldNum K sq) s p solid).pt = p := by
+      simp only [Ball.project3, Ball.Mem3] at *
+      simp [h1, h2]
+    rw [hp]
+    subst h1
+    simp only [Ball.distance3, V3.norm, Ball.Mem3, fieldNum_sqrt] at *
+    by_cases h3 : sq p.normSq - s.r < 0
+    · simp [h3, dsq3]
+    · have h5 : sq p.normSq - s.r = 0 := by
+        have h6 : ¬ (p.normSq < s.r * s.r) := by rwa [← hlt]
+        have h7 : p.normSq = s.r * s.r := le_antisymm h2 (not_lt.mp h6)
+        have h4 : sq p.normSq * sq p.normSq = s.r * s.r := by rw [hd2, h7]
+        have := le_of_mul_self_le hr (le_of_eq h4)
+        push Not at h3; linarith
+      simp [h5, dsq3]
+
+/-! ## HalfSpace `{x | n·x ≤ 0}` with a unit normal -/
+
+/-- **inside flag** -/
+theorem hs3_inside_iff (s : HalfSpace3 K) (p : V3 K) (solid : Bool) :
+    letI := fieldNum K sq
+    (s.project p solid).inside = true ↔ s.Mem p := by
+  letI := fieldNum K sq
+  simp only [HalfSpace3.project, HalfSpace3.Mem]
+  split_ifs <;> simp_all
+
+theorem hs3_contains_iff (s : HalfSpace3 K) (p : V3 K) :
+    letI := fieldNum K sq
+    s.contains p = true ↔ s.Mem p := by
+  simp [HalfSpace3.contains, HalfSpace3.Mem]
+
+/-- **boundary**: when `solid = false` or the point is outside, the projection is on the plane `n·x = 0`. -/
+theorem hs3_project_on_plane (s : HalfSpace3 K) (p : V3 K) (solid : Bool) :
+    letI := fieldNum K sq
+    s.n.normSq = 1 → (solid = false ∨ ¬ s.Mem p) → s.n.dot (s.project p solid).pt = 0 := by
+  letI := fieldNum K sq
+  intro hn h
+  simp only [HalfSpace3.project, HalfSpace3.Mem] at *
+  split_ifs with c
+  · simp at c; rcases h with h | h
+    · simp [h] at c
+    · exact absurd c.1 h
+  · simp only [V3.dot, V3.add, V3.smul, V3.neg, V3.normSq] at *
+    linear_combination (-(s.n.x * p.x + s.n.y * p.y + s.n.z * p.z)) * hn
+
+/-- **membership** -/
+theorem hs3_project_mem (s : HalfSpace3 K) (p : V3 K) (solid : Bool) :
+    letI := fieldNum K sq
+    s.n.normSq = 1 → s.Mem (s.project p solid).pt := by
+  letI := fieldNum K sq
+  intro hn
+  by_cases h : solid = false ∨ ¬ s.Mem p
+  · exact le_of_eq (hs3_project_on_plane sq s p solid hn h)
+  · push Not at h
+    have h1 : solid = true := by simpa using h.1
+    have h2 := h.2
+    simp only [HalfSpace3.project, HalfSpace3.Mem] at *
+    simp [h1, h2]
+
+/-- **optimality w.r.t. the boundary plane** (both flags) -/
+theorem hs3_project_optimal_boundary (s : HalfSpace3 K) (p q : V3 K) (solid : Bool) :
+    letI := fieldNum K sq
+    s.n.normSq = 1 → s.n.dot q = 0 → dsq3 p (s.project p solid).pt ≤ dsq3 p q := by
+  letI := fieldNum K sq
+  intro hn hq
+  simp only [HalfSpace3.project]
+  split_ifs with c
+  · simp only [dsq3]
+    nlinarith [mul_self_nonneg (p.x - q.x), mul_self_nonneg (p.y - q.y), mul_self_nonneg (p.z - q.z)]
+  · apply opt_of_var3
+    simp only [V3.dot, V3.add, V3.smul, V3.neg, V3.normSq] at *
+    apply le_of_eq
+    linear_combination ((s.n.x * p.x + s.n.y * p.y + s.n.z * p.z)^2) * hn
+      + (s.n.x * p.x + s.n.y * p.y + s.n.z * p.z) * hq
+
+/-- **optimality w.r.t. the half-space**: for `solid = true`, or for an outside point, no member is closer. -/
+theorem hs3_project_optimal (s : HalfSpace3 K) (p q : V3 K) (solid : Bool) :
+    letI := fieldNum K sq
+    s.n.normSq = 1 → s.Mem q → (solid = true ∨ ¬ s.Mem p) → dsq3 p (s.project p solid).pt ≤ dsq3 p q := by
+  letI := fieldNum K sq
+  intro hn hq hc
+  simp only [HalfSpace3.project, HalfSpace3.Mem] at *
+  split_ifs with c
+  · simp only [dsq3]
+    nlinarith [mul_self_nonneg (p.x - q.x), mul_self_nonneg (p.y - q.y), mul_self_nonneg (p.z - q.z)]
+  · have hd : 0 < s.n.dot p := by
+      rcases hc with h | h
+      · simp [h] at c; exact c
+      · exact not_le.mp h
+    apply opt_of_var3
+    simp only [V3.dot, V3.add, V3.smul, V3.neg, V3.normSq] at *
+    have e : (p.x - (p.x + -s.n.x * (s.n.x * p.x + s.n.y * p.y + s.n.z * p.z))) * (q.x - (p.x + -s.n.x * (s.n.x * p.x + s.n.y * p.y + s.n.z * p.z)))
+        + (p.y - (p.y + -s.n.y * (s.n.x * p.x + s.n.y * p.y + s.n.z * p.z))) * (q.y - (p.y + -s.n.y * (s.n.x * p.x + s.n.y * p.y + s.n.z * p.z)))
+        + (p.z - (p.z + -s.n.z * (s.n.x * p.x + s.n.y * p.y + s.n.z * p.z))) * (q.z - (p.z + -s.n.z * (s.n.x * p.x + s.n.y * p.y + s.n.z * p.z)))
+        = (s.n.x * p.x + s.n.y * p.y + s.n.z * p.z) * (s.n.x * q.x + s.n.y * q.y + s.n.z * q.z) := by
+      linear_combination ((s.n.x * p.x + s.n.y * p.y + s.n.z * p.z)^2) * hn
+    rw [e]
+    exact mul_nonpos_of_nonneg_of_nonpos hd.le hq
+
+example : (⟨⟨3/5, 4/5, 0⟩⟩ : HalfSpace3 ℚ).n.normSq = 1 ∧ (⟨⟨3/5, 4/5, 0⟩⟩ : HalfSpace3 ℚ).Mem ⟨-1, 0, 7⟩
+    ∧ ¬ (⟨⟨3/5, 4/5, 0⟩⟩ : HalfSpace3 ℚ).Mem ⟨1, 1, 0⟩ := by
+  simp only [HalfSpace3.Mem, V3.normSq, V3.dot]; norm_num
+
+/-- **distance**: magnitude `|p - proj|`, negative exactly for strictly interior points with `solid = false`. -/
+theorem hs3_distance_spec (s : HalfSpace3 K) (p : V3 K) (solid : Bool) :
+    letI := fieldNum K sq
+    s.n.normSq = 1 →
+      s.distance p solid * s.distance p solid = dsq3 p (s.project p solid).pt ∧
+      (s.distance p solid < 0 ↔ (solid = false ∧ s.n.dot p < 0)) := by
+  letI := fieldNum K sq
+  intro hn
+  simp only [HalfSpace3.distance, HalfSpace3.project]
+  have key : ∀ d : K, d = s.n.dot p → dsq3 p (p.add (s.n.neg.smul d)) = d * d := by
+    intro d hd
+    simp only [V3.dot, V3.add, V3.smul, V3.neg, V3.normSq, dsq3] at *
+    linear_combination (d * d) * hn
+  cases solid
+  · simp [key _ rfl]
+  · by_cases h : s.n.dot p < 0
+    · have h' : s.n.dot p ≤ 0 := h.le
+      simp [h, h', dsq3]
+    · by_cases h2 : s.n.dot p ≤ 0
+      · have h3 : s.n.dot p = 0 := le_antisymm h2 (not_lt.mp h)
+        simp [h, h2, dsq3, h3]
+      · simp [h, h2, key _ rfl]
+
+/-! ## Aabb / Cuboid -/
+
+/-- the box `[lo, hi]` as a set, its boundary, and well-formedness -/
+def BoxMem3 (lo hi x : V3 K) : Prop := (lo.x ≤ x.x ∧ x.x ≤ hi.x) ∧ (lo.y ≤ x.y ∧ x.y ≤ hi.y) ∧ (lo.z ≤ x.z ∧ x.z ≤ hi.z)
+def BoxBnd3 (lo hi x : V3 K) : Prop :=
+  BoxMem3 lo hi x ∧ (x.x = lo.x ∨ x.x = hi.x ∨ x.y = lo.y ∨ x.y = hi.y ∨ x.z = lo.z ∨ x.z = hi.z)
+def BoxOk3 (lo hi : V3 K) : Prop := lo.x ≤ hi.x ∧ lo.y ≤ hi.y ∧ lo.z ≤ hi.z
+
+private theorem aabb3_shift_zero (lo hi p : V3 K) (hok : BoxOk3 lo hi) :
+    letI := fieldNum K sq
+    (((lo.sub p).sup V3.zero).sub ((p.sub hi).sup V3.zero)).isZero = true ↔ BoxMem3 lo hi p := by
+  letI := fieldNum K sq
+  simp only [V3.isZero, V3.sub, V3.sup, V3.zero, fieldNum_nmax, Bool.and_eq_true, neq_zero_iff, BoxMem3]
+  rw [(clamp_shift lo.x hi.x p.x hok.1).1, (clamp_shift lo.y hi.y p.y hok.2.1).1, (clamp_shift lo.z hi.z p.z hok.2.2).1]
+  tauto
+
+/-- the three branches of `Aabb::do_project_local_point`, selected by exact membership -/
+private theorem aabb3_branch_out (lo hi p : V3 K) (solid : Bool) (hok : BoxOk3 lo hi) (hm : ¬ BoxMem3 lo hi p) :
+    letI := fieldNum K sq
+    aabbProject3 lo hi p solid = ⟨false, p.add (((lo.sub p).sup V3.zero).sub ((p.sub hi).sup V3.zero))⟩ := by
+  letI := fieldNum K sq
+  have hz := aabb3_shift_zero sq lo hi p hok
+  have hZ : (((lo.sub p).sup V3.zero).sub ((p.sub hi).sup V3.zero)).isZero = false := by
+    rw [← Bool.not_eq_true]; exact fun h => hm (hz.mp h)
+  simp only [aabbProject3, aabbDoProject3, hZ, Bool.not_false, if_true]
+private theorem aabb3_branch_solid (lo hi p : V3 K) (hok : BoxOk3 lo hi) (hm : BoxMem3 lo hi p) :
+    letI := fieldNum K sq
+    aabbProject3 lo hi p true = ⟨true, p⟩ := by
+  letI := fieldNum K sq
+  have hZ := (aabb3_shift_zero sq lo hi p hok).mpr hm
+  simp [aabbProject3, aabbDoProject3, hZ]
+private theorem aabb3_branch_hollow (lo hi p : V3 K) (hok : BoxOk3 lo hi) (hm : BoxMem3 lo hi p) :
+    letI := fieldNum K sq
+    (aabbProject3 lo hi p false).inside = true := by
+  letI := fieldNum K sq
+  have hZ := (aabb3_shift_zero sq lo hi p hok).mpr hm
+  simp [aabbProject3, aabbDoProject3, hZ]
+
+/-- **inside flag** (`Aabb::project_local_point`) -/
+theorem aabb3_inside_iff (lo hi p : V3 K) (solid : Bool) (hok : BoxOk3 lo hi) :
+    letI := fieldNum K sq
+    (aabbProject3 lo hi p solid).inside = true ↔ BoxMem3 lo hi p := by
+  letI := fieldNum K sq
+  by_cases hm : BoxMem3 lo hi p
+  · cases solid
+    · simp [aabb3_branch_hollow sq lo hi p hok hm, hm]
+    · simp [aabb3_branch_solid sq lo hi p hok hm, hm]
+  · simp [aabb3_branch_out sq lo hi p solid hok hm, hm]
+
+/-- for an outside point, or with `solid = true`: membership, boundary, and the variational inequality -/
+private theorem aabb3_solid_core (lo hi p : V3 K) (solid : Bool) (hok : BoxOk3 lo hi)
+    (hc : solid = true ∨ ¬ BoxMem3 lo hi p) :
+    letI := fieldNum K sq
+    BoxMem3 lo hi (aabbProject3 lo hi p solid).pt ∧
+    (¬ BoxMem3 lo hi p → BoxBnd3 lo hi (aabbProject3 lo hi p solid).pt) ∧
+    ∀ q, BoxMem3 lo hi q → ((p.sub (aabbProject3 lo hi p solid).pt).dot (q.sub (aabbProject3 lo hi p solid).pt)) ≤ 0 := by
+  letI := fieldNum K sq
+  obtain ⟨x1, x2, x3, x4⟩ := clamp_shift lo.x hi.x p.x hok.1
+  obtain ⟨y1, y2, y3, y4⟩ := clamp_shift lo.y hi.y p.y hok.2.1
+  obtain ⟨z1, z2, z3, z4⟩ := clamp_shift lo.z hi.z p.z hok.2.2
+  by_cases hm : BoxMem3 lo hi p
+  · have hs : solid = true := by rcases hc with h | h; exact h; exact absurd hm h
+    subst hs
+    rw [aabb3_branch_solid sq lo hi p hok hm]
+    refine ⟨hm, fun h => absurd hm h, ?_⟩
+    intro q _
+    simp [V3.dot, V3.sub]
+  · rw [aabb3_branch_out sq lo hi p solid hok hm]
+    simp only [V3.sub, V3.sup, V3.zero, V3.add, fieldNum_nmax, V3.dot, BoxMem3, BoxBnd3]
+    refine ⟨⟨⟨x2, x3⟩, ⟨y2, y3⟩, ⟨z2, z3⟩⟩, fun _ => ⟨⟨⟨x2, x3⟩, ⟨y2, y3⟩, ⟨z2, z3⟩⟩, ?_⟩, ?_⟩
+    · -- some coordinate is outside its interval, and is clamped onto an end
+      simp only [BoxMem3] at hm
+      by_contra hcon
+      push Not at hcon
+      apply hm
+      have hx : lo.x ≤ p.x ∧ p.x ≤ hi.x := by
+        rcases lt_or_ge p.x lo.x with h | h
+        · exfalso; apply hcon.1; rw [max_eq_left (by linarith), max_eq_right (by linarith)]; ring
+        · rcases lt_or_ge hi.x p.x with h' | h'
+          · exfalso; apply hcon.2.1; rw [max_eq_right (by linarith), max_eq_left (by linarith)]; ring
+          · exact ⟨h, h'⟩
+      have hy : lo.y ≤ p.y ∧ p.y ≤ hi.y := by
+        rcases lt_or_ge p.y lo.y with h | h
+        · exfalso; apply hcon.2.2.1; rw [max_eq_left (by linarith), max_eq_right (by linarith)]; ring
+        · rcases lt_or_ge hi.y p.y with h' | h'
+          · exfalso; apply hcon.2.2.2.1; rw [max_eq_right (by linarith), max_eq_left (by linarith)]; ring
+          · exact ⟨h, h'⟩
+      have hz' : lo.z ≤ p.z ∧ p.z ≤ hi.z := by
+        rcases lt_or_ge p.z lo.z with h | h
+        · exfalso; apply hcon.2.2.2.2.1; rw [max_eq_left (by linarith), max_eq_right (by linarith)]; ring
+        · rcases lt_or_ge hi.z p.z with h' | h'
+          · exfalso; apply hcon.2.2.2.2.2; rw [max_eq_right (by linarith), max_eq_left (by linarith)]; ring
+          · exact ⟨h, h'⟩
+      exact ⟨hx, hy, hz'⟩
+    · intro q ⟨⟨qx1, qx2⟩, ⟨qy1, qy2⟩, ⟨qz1, qz2⟩⟩
+      have := x4 q.x qx1 qx2; have := y4 q.y qy1 qy2; have := z4 q.z qz1 qz2
+      linarith
+
+private theorem aabbStep_eq (mp pm : K) (i : Nat) (st : BestSt K) :
+    letI := fieldNum K sq
+    aabbStep mp pm i st =
+      (if (match st.1 with | none => true | some b => decide (b < max mp pm)) = true
+        then (some (max mp pm), decide (pm ≤ mp), i) else st) := by
+  letI := fieldNum K sq
+  unfold aabbStep
+  by_cases h : mp < pm
+  · simp only [h, if_true, max_eq_right h.le, not_le.2 h, decide_false]; rfl
+  · simp only [h, if_false, max_eq_left (not_lt.1 h), not_lt.1 h, decide_true]; rfl
+
+/-- the non-solid interior branch moves `p` onto one face, and that face is at least as near as each of the six -/
+private theorem aabb3_hollow_select (lo hi p : V3 K) (hok : BoxOk3 lo hi) (hm : BoxMem3 lo hi p) :
+    letI := fieldNum K sq
+    ∃ δ : K, (δ ≤ p.x - lo.x ∧ δ ≤ hi.x - p.x ∧ δ ≤ p.y - lo.y ∧ δ ≤ hi.y - p.y ∧ δ ≤ p.z - lo.z ∧ δ ≤ hi.z - p.z) ∧
+      (((aabbProject3 lo hi p false).pt = ⟨lo.x, p.y, p.z⟩ ∧ δ = p.x - lo.x) ∨
+       ((aabbProject3 lo hi p false).pt = ⟨hi.x, p.y, p.z⟩ ∧ δ = hi.x - p.x) ∨
+       ((aabbProject3 lo hi p false).pt = ⟨p.x, lo.y, p.z⟩ ∧ δ = p.y - lo.y) ∨
+       ((aabbProject3 lo hi p false).pt = ⟨p.x, hi.y, p.z⟩ ∧ δ = hi.y - p.y) ∨
+       ((aabbProject3 lo hi p false).pt = ⟨p.x, p.y, lo.z⟩ ∧ δ = p.z - lo.z) ∨
+       ((aabbProject3 lo hi p false).pt = ⟨p.x, p.y, hi.z⟩ ∧ δ = hi.z - p.z)) := by
+  letI := fieldNum K sq
+  have hZ := (aabb3_shift_zero sq lo hi p hok).mpr hm
+  obtain ⟨⟨mx1, mx2⟩, ⟨my1, my2⟩, ⟨mz1, mz2⟩⟩ := hm
+  simp only [aabbProject3, aabbDoProject3, hZ, Bool.not_true, Bool.false_eq_true, if_false, aabbStep_eq]
+  simp only [V3.sub, decide_true, if_true]
+  have lx1 := le_max_left (lo.x - p.x) (p.x - hi.x); have lx2 := le_max_right (lo.x - p.x) (p.x - hi.x)
+  have ly1 := le_max_left (lo.y - p.y) (p.y - hi.y); have ly2 := le_max_right (lo.y - p.y) (p.y - hi.y)
+  have lz1 := le_max_left (lo.z - p.z) (p.z - hi.z); have lz2 := le_max_right (lo.z - p.z) (p.z - hi.z)
+  by_cases h1 : max (lo.x - p.x) (p.x - hi.x) < max (lo.y - p.y) (p.y - hi.y)
+  · simp only [h1, decide_true, if_true]
+    by_cases h2 : max (lo.y - p.y) (p.y - hi.y) < max (lo.z - p.z) (p.z - hi.z)
+    · simp only [h2, decide_true, if_true, Option.getD_some]
+      by_cases f : p.z - hi.z ≤ lo.z - p.z
+      · have e := max_eq_left f
+        simp only [f, decide_true, if_true]
+        refine ⟨p.z - lo.z, ⟨?_, ?_, ?_, ?_, ?_, ?_⟩, (fun h => Or.inr (Or.inr (Or.inr (Or.inr (Or.inl h))))) ⟨v3_ext ?_ ?_ ?_, rfl⟩⟩ <;>
+          first | linarith | (simp [V3.add, V3.set, V3.zero, e])
+      · simp only [f, decide_false, Bool.false_eq_true, if_false]
+        push Not at f
+        have e := max_eq_right f.le
+        refine ⟨hi.z - p.z, ⟨?_, ?_, ?_, ?_, ?_, ?_⟩, (fun h => Or.inr (Or.inr (Or.inr (Or.inr (Or.inr h))))) ⟨v3_ext ?_ ?_ ?_, rfl⟩⟩ <;>
+          first | linarith | (simp [V3.add, V3.set, V3.zero, e])
+    · simp only [h2, decide_false, Bool.false_eq_true, if_false, Option.getD_some]
+      push Not at h2
+      by_cases f : p.y - hi.y ≤ lo.y - p.y
+      · have e := max_eq_left f
+        simp only [f, decide_true, if_true]
+        refine ⟨p.y - lo.y, ⟨?_, ?_, ?_, ?_, ?_, ?_⟩, (fun h => Or.inr (Or.inr (Or.inl h))) ⟨v3_ext ?_ ?_ ?_, rfl⟩⟩ <;>
+          first | linarith | (simp [V3.add, V3.set, V3.zero, e])
+      · simp only [f, decide_false, Bool.false_eq_true, if_false]
+        push Not at f
+        have e := max_eq_right f.le
+        refine ⟨hi.y - p.y, ⟨?_, ?_, ?_, ?_, ?_, ?_⟩, (fun h => Or.inr (Or.inr (Or.inr (Or.inl h)))) ⟨v3_ext ?_ ?_ ?_, rfl⟩⟩ <;>
+          first | linarith | (simp [V3.add, V3.set, V3.zero, e])
+  · simp only [h1, decide_false, Bool.false_eq_true, if_false]
+    push Not at h1
+    by_cases h2 : max (lo.x - p.x) (p.x - hi.x) < max (lo.z - p.z) (p.z - hi.z)
+    · simp only [h2, decide_true, if_true, Option.getD_some]
+      by_cases f : p.z - hi.z ≤ lo.z - p.z
+      · have e := max_eq_left f
+        simp only [f, decide_true, if_true]
+        refine ⟨p.z - lo.z, ⟨?_, ?_, ?_, ?_, ?_, ?_⟩, (fun h => Or.inr (Or.inr (Or.inr (Or.inr (Or.inl h))))) ⟨v3_ext ?_ ?_ ?_, rfl⟩⟩ <;>
+          first | linarith | (simp [V3.add, V3.set, V3.zero, e])
+      · simp only [f, decide_false, Bool.false_eq_true, if_false]
+        push Not at f
+        have e := max_eq_right f.le
+        refine ⟨hi.z - p.z, ⟨?_, ?_, ?_, ?_, ?_, ?_⟩, (fun h => Or.inr (Or.inr (Or.inr (Or.inr (Or.inr h))))) ⟨v3_ext ?_ ?_ ?_, rfl⟩⟩ <;>
+          first | linarith | (simp [V3.add, V3.set, V3.zero, e])
+    · simp only [h2, decide_false, Bool.false_eq_true, if_false, Option.getD_some]
+      push Not at h2
+      by_cases f : p.x - hi.x ≤ lo.x - p.x
+      · have e := max_eq_left f
+        simp only [f, decide_true, if_true]
+        refine ⟨p.x - lo.x, ⟨?_, ?_, ?_, ?_, ?_, ?_⟩, Or.inl ⟨v3_ext ?_ ?_ ?_, rfl⟩⟩ <;>
+          first | linarith | (simp [V3.add, V3.set, V3.zero, e])
+      · simp only [f, decide_false, Bool.false_eq_true, if_false]
+        push Not at f
+        have e := max_eq_right f.le
+        refine ⟨hi.x - p.x, ⟨?_, ?_, ?_, ?_, ?_, ?_⟩, (fun h => Or.inr (Or.inl h)) ⟨v3_ext ?_ ?_ ?_, rfl⟩⟩ <;>
+          first | linarith | (simp [V3.add, V3.set, V3.zero, e])
+
+/-- **membership** (`Aabb::project_local_point`, both flags) -/
+theorem aabb3_project_mem (lo hi p : V3 K) (solid : Bool) (hok : BoxOk3 lo hi) :
+    letI := fieldNum K sq
+    BoxMem3 lo hi (aabbProject3 lo hi p solid).pt := by
+  letI := fieldNum K sq
+  by_cases hc : solid = true ∨ ¬ BoxMem3 lo hi p
+  · exact (aabb3_solid_core sq lo hi p solid hok hc).1
+  · push Not at hc
+    have hs : solid = false := by simpa using hc.1
+    subst hs
+    obtain ⟨⟨mx1, mx2⟩, ⟨my1, my2⟩, ⟨mz1, mz2⟩⟩ := hc.2
+    obtain ⟨δ, _, h | h | h | h | h | h⟩ := aabb3_hollow_select sq lo hi p hok hc.2 <;>
+      (rw [h.1]; simp only [BoxMem3]; refine ⟨⟨?_, ?_⟩, ⟨?_, ?_⟩, ⟨?_, ?_⟩⟩ <;> first | assumption | exact le_refl _ | exact hok.1 | exact hok.2.1 | exact hok.2.2)
+
+/-- **boundary**: with `solid = false`, or for an outside point, the projection is on a face of the box. -/
+theorem aabb3_project_on_boundary (lo hi p : V3 K) (solid : Bool) (hok : BoxOk3 lo hi) :
+    letI := fieldNum K sq
+    (solid = false ∨ ¬ BoxMem3 lo hi p) → BoxBnd3 lo hi (aabbProject3 lo hi p solid).pt := by
+  letI := fieldNum K sq
+  intro h
+  by_cases hm : BoxMem3 lo hi p
+  · have hs : solid = false := by rcases h with h | h; exact h; exact absurd hm h
+    subst hs
+    refine ⟨aabb3_project_mem sq lo hi p false hok, ?_⟩
+    obtain ⟨δ, _, h | h | h | h | h | h⟩ := aabb3_hollow_select sq lo hi p hok hm <;> rw [h.1] <;> simp
+  · exact (aabb3_solid_core sq lo hi p solid hok (Or.inr hm)).2.1 hm
+
+/-- **optimality w.r.t. the solid box**: for `solid = true`, or for an outside point, no point of the box is closer. -/
+theorem aabb3_project_optimal (lo hi p q : V3 K) (solid : Bool) (hok : BoxOk3 lo hi) :
+    letI := fieldNum K sq
+    BoxMem3 lo hi q → (solid = true ∨ ¬ BoxMem3 lo hi p) → dsq3 p (aabbProject3 lo hi p solid).pt ≤ dsq3 p q := by
+  letI := fieldNum K sq
+  intro hq hc
+  have h := (aabb3_solid_core sq lo hi p solid hok hc).2.2 q hq
+  simp only [V3.dot, V3.sub] at h
+  exact opt_of_var3 _ _ _ _ _ _ _ _ _ h
+
+/-- **optimality w.r.t. the boundary** (both flags; this is the clause for `solid = false` and an interior point):
+no point of the six faces is closer than the projection. -/
+theorem aabb3_project_optimal_boundary (lo hi p q : V3 K) (solid : Bool) (hok : BoxOk3 lo hi) :
+    letI := fieldNum K sq
+    BoxBnd3 lo hi q → dsq3 p (aabbProject3 lo hi p solid).pt ≤ dsq3 p q := by
+  letI := fieldNum K sq
+  intro hq
+  by_cases hc : solid = true ∨ ¬ BoxMem3 lo hi p
+  · exact aabb3_project_optimal sq lo hi p q solid hok hq.1 hc
+  · push Not at hc
+    have hs : solid = false := by simpa using hc.1
+    subst hs
+    obtain ⟨⟨mx1, mx2⟩, ⟨my1, my2⟩, ⟨mz1, mz2⟩⟩ := hc.2
+    obtain ⟨δ, ⟨d1, d2, d3, d4, d5, d6⟩, hsel⟩ := aabb3_hollow_select sq lo hi p hok hc.2
+    have hδ : 0 ≤ δ := by rcases hsel with h | h | h | h | h | h <;> rw [h.2] <;> linarith
+    have hd : dsq3 p (@aabbProject3 K (fieldNum K sq) lo hi p false).pt = δ * δ := by
+      rcases hsel with h | h | h | h | h | h <;> rw [h.1, h.2] <;> simp only [dsq3] <;> ring
+    rw [hd]
+    obtain ⟨⟨⟨qx1, qx2⟩, ⟨qy1, qy2⟩, ⟨qz1, qz2⟩⟩, hf⟩ := hq
+    simp only [dsq3]
+    have sx := mul_self_nonneg (p.x - q.x); have sy := mul_self_nonneg (p.y - q.y); have sz := mul_self_nonneg (p.z - q.z)
+    rcases hf with e | e | e | e | e | e
+    · have : δ * δ ≤ (p.x - q.x) * (p.x - q.x) := by rw [e]; exact mul_self_le_mul_self hδ d1
+      linarith
+    · have : δ * δ ≤ (p.x - q.x) * (p.x - q.x) := by
+        rw [e]; have := mul_self_le_mul_self hδ d2; nlinarith
+      linarith
+    · have : δ * δ ≤ (p.y - q.y) * (p.y - q.y) := by rw [e]; exact mul_self_le_mul_self hδ d3
+      linarith
+    · have : δ * δ ≤ (p.y - q.y) * (p.y - q.y) := by
+        rw [e]; have := mul_self_le_mul_self hδ d4; nlinarith
+      linarith
+    · have : δ * δ ≤ (p.z - q.z) * (p.z - q.z) := by rw [e]; exact mul_self_le_mul_self hδ d5
+      linarith
+    · have : δ * δ ≤ (p.z - q.z) * (p.z - q.z) := by
+        rw [e]; have := mul_self_le_mul_self hδ d6; nlinarith
+      linarith
+
+example : BoxOk3 (⟨-1, -2, -3⟩ : V3 ℚ) ⟨1, 2, 3⟩ ∧ BoxBnd3 (⟨-1, -2, -3⟩ : V3 ℚ) ⟨1, 2, 3⟩ ⟨1, 0, 1⟩
+    ∧ BoxMem3 (⟨-1, -2, -3⟩ : V3 ℚ) ⟨1, 2, 3⟩ ⟨0, 1/2, 0⟩ := by
+  simp only [BoxOk3, BoxBnd3, BoxMem3]; norm_num
+
+/-! ### Cuboid = `Aabb::new(-he, he)` -/
+
+/-- boundary of the cuboid: a member with one coordinate at `± he` -/
+def CubBnd3 (s : Cuboid3 K) (x : V3 K) : Prop :=
+  BoxBnd3 ⟨-s.he.x, -s.he.y, -s.he.z⟩ s.he x
+def CubOk3 (s : Cuboid3 K) : Prop := 0 ≤ s.he.x ∧ 0 ≤ s.he.y ∧ 0 ≤ s.he.z
+
+private theorem cubOk (s : Cuboid3 K) (h : CubOk3 s) : BoxOk3 (⟨-s.he.x, -s.he.y, -s.he.z⟩ : V3 K) s.he := by
+  obtain ⟨a, b, c⟩ := h
+  exact ⟨by simp only []; linarith, by simp only []; linarith, by simp only []; linarith⟩
+
+/-- **inside flag** ⇔ `Cuboid.Mem` -/
+theorem cub3_inside_iff (s : Cuboid3 K) (p : V3 K) (solid : Bool) (h : CubOk3 s) :
+    letI := fieldNum K sq
+    (s.project p solid).inside = true ↔ s.Mem p :=
+  aabb3_inside_iff sq _ _ p solid (cubOk s h)
+
+/-- `contains_local_point ⇔ Mem` -/
+theorem cub3_contains_iff (s : Cuboid3 K) (p : V3 K) (h : CubOk3 s) :
+    letI := fieldNum K sq
+    s.contains p = true ↔ s.Mem p :=
+  aabb3_inside_iff sq _ _ p true (cubOk s h)
+
+theorem cub3_project_mem (s : Cuboid3 K) (p : V3 K) (solid : Bool) (h : CubOk3 s) :
+    letI := fieldNum K sq
+    s.Mem (s.project p solid).pt :=
+  aabb3_project_mem sq _ _ p solid (cubOk s h)
+
+theorem cub3_project_on_boundary (s : Cuboid3 K) (p : V3 K) (solid : Bool) (h : CubOk3 s) :
+    letI := fieldNum K sq
+    (solid = false ∨ ¬ s.Mem p) → CubBnd3 s (s.project p solid).pt :=
+  aabb3_project_on_boundary sq _ _ p solid (cubOk s h)
+
+/-- **optimality**, solid cuboid (`solid = true` or outside point) -/
+theorem cub3_project_optimal (s : Cuboid3 K) (p q : V3 K) (solid : Bool) (h : CubOk3 s) :
+    letI := fieldNum K sq
+    s.Mem q → (solid = true ∨ ¬ s.Mem p) → dsq3 p (s.project p solid).pt ≤ dsq3 p q :=
+  aabb3_project_optimal sq _ _ p q solid (cubOk s h)
+
+/-- **optimality**, hollow cuboid (any flag, in particular `solid = false` with an interior point) -/
+theorem cub3_project_optimal_boundary (s : Cuboid3 K) (p q : V3 K) (solid : Bool) (h : CubOk3 s) :
+    letI := fieldNum K sq
+    CubBnd3 s q → dsq3 p (s.project p solid).pt ≤ dsq3 p q :=
+  aabb3_project_optimal_boundary sq _ _ p q solid (cubOk s h)
 
 end C05
